@@ -208,7 +208,7 @@ def audit(case, backend, runs) -> dict:
         arows = session.query(Argument).filter(Argument.call_hash == ch).all()
         pos = sorted((a.arg_position, a.value_hash) for a in arows if a.arg_position is not None)
         kw = {a.arg_key: a.value_hash for a in arows if a.arg_position is None}
-        if node.task_name in ("vf.node", "vf.elem", "vf.dnode", "vf.ident") and not noprov_involved:
+        if node.task_name in ("vf.node", "vf.elem", "vf.kelem", "vf.dnode", "vf.ident") and not noprov_involved:
             want = hash_struct(["TaskArguments", [h for _, h in pos], kw])
             if want != node.args_hash:
                 held = [backend.get_value(a.value_hash)[0] for a in arows]
